@@ -13,6 +13,12 @@ MUT = [
  ("C08", "qkeras/quantizers.py", "  result = tf.where(fraction < tf.random.uniform(tf.shape(x)),", "  result = tf.where(fraction > tf.random.uniform(tf.shape(x)),", "stochastic_round"),
  ("C03", "qkeras/quantizers.py", "  min_exp = -2**(effect_bits)\n", "  min_exp = -2**(effect_bits) + 1\n", "quantized_po2"),
  ("C03", "qkeras/quantizers.py", "  x_clipped = tf.where(\n      x_abs < eps,\n      tf.ones_like(x_abs) * min_exp,", "  x_clipped = tf.where(\n      x_abs < 0,\n      tf.ones_like(x_abs) * min_exp,", "quantized_po2"),
+ ("C20", "qkeras/autoqkeras/autoqkeras_internal.py", "          if value <= self.limit[name][index]", "          if value <= self.limit[name][index] + 1", "_get_quantizer"),
+ ("C20", "qkeras/autoqkeras/forgiving_metrics/forgiving_factor.py", "        self.trial_size < self.reference_size,", "        self.trial_size > self.reference_size,", "delta"),
+ ("C20", "qkeras/autoqkeras/forgiving_metrics/forgiving_bits.py", "          bits = layer.get_quantizers()[i].bits\n        else:\n          bits = t_size", "          bits = layer.get_quantizers()[0].bits\n        else:\n          bits = t_size", "_param_size"),
+ ("C19", "qkeras/qtools/qtools_util.py", "    operation_count = (\n        time_o * channels_o * kernel_length * channels_i)", "    operation_count = (\n        time_o * channels_o * kernel_length)", "Conv1D"),
+ ("C10", "qkeras/quantizers.py", '    flags = [str(self.bits), integer_bits, str(int(self.symmetric))]\n    if not self.keep_negative:\n      flags.append("keep_negative=False")\n    if self.alpha:', '    flags = [str(self.bits), str(int(self.symmetric)), integer_bits]\n    if not self.keep_negative:\n      flags.append("keep_negative=False")\n    if self.alpha:', "quantized_bits"),
+ ("C10", "qkeras/safe_eval.py", "    if (len(items[i]) == 1) and (len(items[i-1]) == 2):", "    if (len(items[i]) == 1) and (len(items[i-1]) == 2) and i > 1:", "GetParams"),
  ("C16", "qkeras/qtools/quantized_operators/multiplier_impl.py", "    self.output.int_bits = self.input.int_bits + self.weights.int_bits", "    self.output.int_bits = max(self.input.int_bits, self.weights.int_bits)", "qbits_x_qbits"),
  ("C17", "qkeras/qtools/quantized_operators/accumulator_impl.py", "    self.log_add_ops = int(np.ceil(np.log2(add_ops)))", "    self.log_add_ops = int(np.floor(np.log2(add_ops)))", "qbits_rank2"),
  ("C17", "qkeras/qtools/quantized_operators/adder_impl.py", "    fractional_bits = max(fractional_bits1, fractional_bits2)", "    fractional_bits = min(fractional_bits1, fractional_bits2)", "qbits_plus_qbits"),
